@@ -1,6 +1,6 @@
 (* Correspondence for C01 / C02 (peer/signed-msg.go, peer/signature.go). *)
 From Bifrost Require Export Lib.Base Lib.Sym Lib.SigSym gen.Sig gen.SigHash Sig.Model.
-From Bifrost Require Export Lib.Proto gen.Descs Sig.Wire.
+From Bifrost Require Export Lib.Proto gen.Descs Sig.Wire Lib.SigPatt.
 
 (* how the harness names signature bytes: the bytes NewSignature returned for
    (key, context, hash type, data), other non-empty bytes (numbered), or none *)
